@@ -282,8 +282,21 @@ def field_ok(st, wire_type, v, legacy):
             return True
         return z3.Or(z3.Not(_nonempty(v)), table_encodable(v.t, sym.B(legacy)))
     if wire_type == 'timestamp':
-        return in_range(SInt(dt_seconds(v.t)), 0, 2 ** 64 - 1)
+        return in_range(time_seconds(v), 0, 2 ** 64 - 1)
     raise EngineError('field_ok: %s' % wire_type)
+
+
+def time_seconds(v):
+    """Whole seconds since the epoch of a time value: symbolic (dt_seconds) or concrete (replay, bounded stand-in)."""
+    import datetime as _dt
+    import time as _time
+    if isinstance(v, (_dt.datetime, _time.struct_time)):
+        from spec import ref
+        s = ref.seconds(v)
+        if isinstance(v, _dt.datetime) and s < 0 and v.microsecond:
+            s += 1          # int() truncates toward zero: a pre-epoch fraction rounds up (I2)
+        return s
+    return SInt(dt_seconds(v.t))
 
 
 def field_bytes(st, wire_type, v, legacy):
@@ -301,7 +314,7 @@ def field_bytes(st, wire_type, v, legacy):
             return b'\x00\x00\x00\x00'
         return table_bytes(st, v, legacy)
     if wire_type == 'timestamp':
-        return be(st, 8, SInt(dt_seconds(v.t)))
+        return be(st, 8, time_seconds(v))
     raise EngineError('field_bytes: %s' % wire_type)
 
 
@@ -421,6 +434,7 @@ def args_parse(st, fields, data):
             ts = sym.I(uint(a))
             # A5 (library contract): datetime.fromtimestamp represents every instant up to 9999-12-31T23:59:59Z
             st.assume(z3.Implies(z3.And(ts >= 0, ts <= 253402300799), dt_representable(ts)))
+            st.assume(z3.Implies(ts > 253402300799999, z3.Not(dt_representable(ts))))     # past 9999 even when read as milliseconds
             conds.append(dt_representable(ts))
             values[name] = sym.SOpaque('datetime_aware', z3.If(ts <= 0xFFFFFFFF, dt_of_seconds(ts), dt_of_millis(ts)))
             advance(8)
@@ -821,6 +835,7 @@ def parse_value(st, rope):
             return None
         ts = sym.I(uint(b))
         st.assume(z3.Implies(z3.And(ts >= 0, ts <= 253402300799), dt_representable(ts)))
+        st.assume(z3.Implies(ts > 253402300799999, z3.Not(dt_representable(ts))))
         return (sym.SOpaque('datetime_aware', z3.If(ts <= 0xFFFFFFFF, dt_of_seconds(ts), dt_of_millis(ts))), 9,
                 dt_representable(ts))
     if tb == b'F':
